@@ -11,10 +11,12 @@ CONSTANTS W, S, LB, MaxBulk, MaxInit
 A == INSTANCE Ans
 B == INSTANCE BigAns
 
-VARIABLE cd
-Init == cd \in { A!Coder(st, bk) : st \in 0..(2^S - 1), bk \in A!WordSeqs(W, MaxBulk) }
-Next == UNCHANGED cd
-Spec == Init /\ [][Next]_cd
+VARIABLES cd, go
+\* all coder states are successors of one initial state, so that TLC's workers evaluate the laws in parallel
+Init == cd = A!Empty /\ go = 0
+Next == \/ go = 0 /\ go' = 1 /\ cd' \in { A!Coder(st, <<>>) : st \in 0..(2^S - 1) }
+        \/ go = 1 /\ go' = 2 /\ cd' \in { A!Coder(cd.state, bk) : bk \in A!WordSeqs(W, MaxBulk) }
+Spec == Init /\ [][Next]_<<cd, go>>
 
 F(n) == B!FromNat(n)
 FSeq(ws) == [i \in 1..Len(ws) |-> F(ws[i])]
@@ -36,7 +38,7 @@ Steps == \A P \in A!Precisions : \A cp \in A!Slots(P) :
            /\ B!AnsEnc(bc, P, F(cp[1]), F(cp[2])) = FCoder(A!AnsEnc(cd, P, cp[1], cp[2]))
            /\ B!Hits(bc, P, F(cp[1]), F(cp[2])) = A!Hits(cd, P, cp[1], cp[2])
            /\ (A!Hits(cd, P, cp[1], cp[2]) => B!AnsDec(bc, P, F(cp[1]), F(cp[2])) = FCoder(A!AnsDec(cd, P, cp[1], cp[2])))
-Imports == cd.state = 0 /\ cd.bulk = <<>> =>           \* evaluated once
+Imports == go = 0 =>                                     \* evaluated once, in the initial state
            \A d \in A!WordSeqs(W, MaxInit) :
               /\ B!CanImport(FSeq(d)) = A!CanImport(d)
               /\ (A!CanImport(d) => B!Import(FSeq(d)) = FCoder(A!Import(d)))
